@@ -2554,6 +2554,21 @@ def sensor_acc(m: Model, d: Data):
     ],
   )
 
+  # touch forces are accumulated atomically over contacts: apply the cutoff to the sum (generic per-sensor post-pass)
+  wp.launch(
+    _tendon_actuator_force_cutoff,
+    dim=(d.nworld, m.sensor_touch_adr.size),
+    inputs=[
+      m.sensor_type,
+      m.sensor_datatype,
+      m.sensor_adr,
+      m.sensor_cutoff,
+      m.sensor_touch_adr,
+      d.sensordata,
+    ],
+    outputs=[d.sensordata],
+  )
+
   weld_geom_count = wp.zeros((d.nworld, m.nbody), dtype=int)
   weld_geom_list = wp.full((d.nworld, m.nbody, MJ_MAXCONPAIR), -1, dtype=int)
   wp.launch(
